@@ -246,6 +246,25 @@ func vfAclExec(alphabet []vfAclOp) func(hist []int, last bool) vfXResult {
 					kind = "accept-transfer"
 				}
 				res.Violations = append(res.Violations, vfFaultOracles(op.String(), kind, failed, vfXFault.K, code, preDump, res.PostDump, vfXFault.Base, post)...)
+				// what clients subsequently see: the topic keeps answering its owner (a failed request must
+				// not leave it paused or otherwise unusable)
+				if post.alive() && code >= 400 {
+					oi := 0
+					for i, u := range t.users {
+						if t.uname(u.uid) == post.Owner {
+							oi = i
+						}
+					}
+					c2, _ := t.cl[oi].Req(`{"sub":{"id":"$ID","topic":"%s"}}`, t.grp)
+					if c2 < 400 && c2 != 0 {
+						c2, _ = t.cl[oi].Req(`{"pub":{"id":"$ID","topic":"%s","content":"after the failure"}}`, t.grp)
+					}
+					if c2 >= 500 || c2 == 0 {
+						res.Violations = append(res.Violations, vfXViolation{Key: "C08:topic-unusable-after-failed-request:" + kind + "@" + failed,
+							What:   fmt.Sprintf("%s: store call #%d (%s) failed (reply %d); afterwards the owner's {sub} / {pub} is answered %d", op, vfXFault.K, failed, code, c2),
+							Detail: map[string]any{"op": op.String(), "failing_call": failed}})
+					}
+				}
 				// the single-owner and authorisation rules hold under store failures too
 				for _, v := range vfAclOracles(t, pre, op, code, frames, post) {
 					if strings.HasPrefix(v.Key, "C13:unanswered") || strings.HasPrefix(v.Key, "C08:") {
